@@ -265,13 +265,47 @@ def build(prop, tier="quick"):
     c = C("verif_inner")
     kb.emit_stub("void verif_inner(Stack_Holder *h, Conversion_Saves *s)", c.fn, "verif_inner")
     kb.functions.append("verif_inner (assumed contract: induction hypothesis of the nesting argument)")
+    # the lemma bodies are the REAL constructor and destructor bodies of the guards (chaiscript_common.hpp), cut out on every
+    # run, with `inner` between them.  A throw inside a guard constructor must find the holder as the constructor found it:
+    # the destructor of an object whose constructor throws never runs.
+    cmh = chai2c.Header(CM)
+    from common import throw_rule
+    thr = throw_rule({"eval_error": "K_eval_error"}, CM)
+
+    def guard_body(guard):
+        gs = cmh.slice_block("struct " + guard)
+        ctor = cmh.slice_function("explicit %s(const chaiscript::detail::Dispatch_State &t_ds)" % guard, after=gs.ob)
+        dtor = cmh.slice_function("~%s()" % guard, after=gs.ob)
+        if ctor.cb > gs.cb or dtor.cb > gs.cb:
+            raise ExtractionBreak("constructor / destructor of %s not found inside the struct" % guard)
+        if not re.fullmatch(r"explicit %s\(const chaiscript::detail::Dispatch_State &t_ds\)\s*:\s*m_ds\(t_ds\)\s*" % guard, ctor.sig_tail):
+            raise ExtractionBreak("%s: constructor initializer list changed" % guard)
+        consts = "".join("static const %s %s = %s; " % (t.replace("std::", ""), n, v) for t, n, v in
+                         re.findall(r"static constexpr ((?:std::)?(?:int|size_t|unsigned|long)) (\w+) = (\d+);", chai2c.strip_comments(gs.body)))
+        r = Rules("guard")
+        r.add("R9.g1", r"\bm_ds->(new_scope|pop_scope|new_stack|pop_stack)\(m_ds\.stack_holder\(\)\);", r"Dispatch_Engine_\1(h);")
+        r.add("R9.g2", r"\bm_ds->(new_function_call|pop_function_call)\(m_ds\.stack_holder\(\), m_ds\.conversion_saves\(\)\);", r"Dispatch_Engine_\1(e, h, s);")
+        r.add("R9.g3", r"\bm_ds\.stack_holder\(\)\.", "h->")
+        r.extend(base_rules())
+        out = []
+        for sl, what in ((ctor, "ctor"), (dtor, "dtor")):
+            b, n = thr(sl.body, "%s_%s" % (guard, what))
+            b = b.replace("VERIF_THROW(", "verif_throw_shape_ok = VERIF_LEMMA_SHAPE_UNCHANGED; VERIF_THROW(")
+            b = r.apply(b, ctx=guard)
+            chai2c.forbidden_scan(b, ctx=guard)
+            if not re.search(r"\bDispatch_Engine_\w+\(", b):
+                raise ExtractionBreak("%s %s: no push / pop primitive call found" % (guard, what))
+            out.append(b)
+            kb.slices.append(("%s::%s" % (guard, what), sl.where(), sl.sha))
+        kb.note_rules(r)
+        return ("%s const int verif_d0 = h->call_depth; const size_t verif_cp0 = h->call_params.size, verif_st0 = h->stacks.size, verif_top0 = TOP(h);"
+                " /* constructor */ %s verif_inner(h, s); /* destructor */ %s" % (consts, out[0], out[1]))
+
+    kb.add("#define VERIF_LEMMA_SHAPE_UNCHANGED (h->call_depth == verif_d0 && h->call_params.size == verif_cp0 && h->stacks.size == verif_st0 && TOP(h) == verif_top0)")
     lemmas = {
-        "lemma_Scope_Push_Pop": ("Dispatch_Engine_new_scope(h); verif_inner(h, s); Dispatch_Engine_pop_scope(h);",
-                                 ["Dispatch_Engine_new_scope", "Dispatch_Engine_pop_scope"]),
-        "lemma_Stack_Push_Pop": ("Dispatch_Engine_new_stack(h); verif_inner(h, s); Dispatch_Engine_pop_stack(h);",
-                                 ["Dispatch_Engine_new_stack", "Dispatch_Engine_pop_stack"]),
-        "lemma_Function_Push_Pop": ("Dispatch_Engine_new_function_call(e, h, s); verif_inner(h, s); Dispatch_Engine_pop_function_call(e, h, s);",
-                                    ["Dispatch_Engine_new_function_call", "Dispatch_Engine_pop_function_call"]),
+        "lemma_Scope_Push_Pop": (guard_body("Scope_Push_Pop"), ["Dispatch_Engine_new_scope", "Dispatch_Engine_pop_scope"]),
+        "lemma_Stack_Push_Pop": (guard_body("Stack_Push_Pop"), ["Dispatch_Engine_new_stack", "Dispatch_Engine_pop_stack"]),
+        "lemma_Function_Push_Pop": (guard_body("Function_Push_Pop"), ["Dispatch_Engine_new_function_call", "Dispatch_Engine_pop_function_call"]),
     }
     for name, (body, repl) in lemmas.items():
         c = C(name)
@@ -279,7 +313,7 @@ def build(prop, tier="quick"):
         kb.functions.append(name)
         kb.add("void h_%s(void) { Dispatch_Engine *e; Stack_Holder *h; Conversion_Saves *s; %s(e, h, s); VERIF_CANARY(\"%s returns normally\"); }"
                % (name, name, name))
-        kb.targets.append(Target(name, "h_" + name, replace=repl + ["verif_inner"]))
+        kb.targets.append(Target(name, "h_" + name, replace=repl + ["verif_inner"], solver="sat:cadical"))
     guard_facts(kb)
     kb.assumptions += [
         "A2: C++ runs the destructor of a complete automatic guard object on every exit from its scope, including stack unwinding",
